@@ -23,7 +23,8 @@ def failed(case, o):
     g = case.meta['gd']; f = g['fail']
     try:
         if f == 'ret': v = int(o.ret.split(',')[0]); return (v != 0, v)
-        if f == 'errp': v = int(o.ret.split(',')[1]); return (v != 0, v)
+        if f == 'errp':
+            eb = [b for (b, lo, n) in g['writable'] if n == 4][0]; v = int.from_bytes(o.blocks[eb][:4], 'little', signed=True); return (v != 0, v)
         if f == 'neg': v = int(o.ret.split(',')[0]); return (v < 0, -v)
         if f == 'null': return (o.ret.split(',')[0] == 'N', None)
     except Exception:
